@@ -16,15 +16,17 @@ mod project;
 mod driver;
 mod hashseed;
 mod rng;
+mod sched;
 
 use common::*;
 use driver::Engine;
 
 static BUDGET: budget::BudgetEngine = budget::BudgetEngine;
 static BUILD: build::BuildEngine = build::BuildEngine;
+static SCHED: sched::SchedEngine = sched::SchedEngine;
 
 fn engines() -> Vec<&'static dyn Engine> {
-    vec![&BUDGET, &BUILD]
+    vec![&BUDGET, &BUILD, &SCHED]
 }
 
 fn find_engine(name: &str) -> Option<&'static dyn Engine> {
